@@ -1,5 +1,7 @@
 import Bclv.Proofs.CompileCorrect
 import Bclv.Model.Api
+import Bclv.Proofs.Group2
+import Bclv.Proofs.Group6
 /-!
 # C01 — expression evaluation conforms to the language definition
 
@@ -10,10 +12,24 @@ import Bclv.Model.Api
   depth, with the 1024-value stack limit and every runtime error (message and
   position) included.
 * `parsed_is_compiled`: what the model's parser hands to the VM *is* `compile` of the
-  tree it built, so the theorem applies to every program the model accepts.  That the
-  tree is the right reading of the text (precedence, associativity) is covered by
-  the regenerated rule tables (`Tie`) and by the correspondence; the parser
-  round-trip theorem `parse_pretty` is not proved.
+  tree it built, so the theorem applies to every program the model accepts.
+* `groups_by_precedence`: the tree is the right reading of the text.  Whatever the
+  expression parser consumes without reporting an error *reads as* the shape of the tree it
+  returns, where "reads as" (`Rd`, `Proofs/Group1.lean`) is written from the documented
+  precedence table alone: a binary operator takes on its left what stands at its own level
+  (equal precedence groups to the left) and on its right what stands one level higher, an
+  operand is as long as it can be, parentheses make anything an operand, assignment stands
+  only at the lowest level.  (`and`/`or` chains are grouped to the right by the parser; the
+  value of a short-circuit chain does not depend on that.)
+  `C01.accepted_source_reads_as_its_tree` (in `Props/C01Source.lean`, which sits above the
+  lexer and grammar proofs) lifts this to whole source texts: the tokens of an
+  accepted text read as the shape of the program tree that `compile_correct_prog` is about.
+  `reading_is_unique`: the relation gives a token sequence at most one shape (every `Rd`
+  derivation is a run of a small deterministic precedence-climbing reader over token kinds,
+  `Proofs/Group5.lean`), so `the_tree_is_the_only_reading`: any shape the consumed tokens read
+  as is the shape of the tree the parser returned.  Not proved: the converse (`parse_pretty`:
+  every rendering of a tree is accepted); the precedence numbers themselves are tied to the
+  source by the regenerated rule table (`Tie`).
 -/
 namespace Bclv.C01
 open Bclv
@@ -155,6 +171,80 @@ theorem parsed_is_compiled (name input : Bytes) :
   intro r hok
   simp only [parseWhole]
   simp [r, hok, compilePFast_eq] at *
+
+/-- **Operators group by the documented precedence.**  From any parser state that satisfies the
+parser's invariant: if `expr` reports no error, the token kinds it consumed read, by the
+precedence table, as the shape of the tree it returns, and the token that follows is not an
+operator the expression could have taken. -/
+theorem groups_by_precedence (f : Nat) (p : PState) (hi : GInv p) (hne : NE (expr f p).2) :
+    ∃ sk, Skips sk p (expr f p).2 ∧ Rd precAssign (shape (expr f p).1) (typs sk) 0 ∧ fprec (expr f p).2 = 0 := by
+  obtain ⟨sk, hs, hr, hlt⟩ := (expr_rd f p hi).2 hne
+  have hz : fprec (expr f p).2 = 0 := by unfold precAssign at hlt; omega
+  exact ⟨sk, hs, by rw [hz] at hr; exact hr, hz⟩
+
+/-- **The reading relation determines the shape**: at a level `n`, followed by a token `c` that
+binds less tightly than `n` (and is not `=` where an assignment could stand), a token sequence
+reads as at most one shape. -/
+theorem reading_is_unique {n : Nat} {s s' : Sh} {ts : List TokType} {k : Nat} (h : Rd n s ts k) (h' : Rd n s' ts k)
+    (hn : 1 ≤ n) (hk : k < n) (c : TokType) (hc : opPrec c = k) (hceq : n ≤ precAssign → c ≠ .EQ) : s = s' :=
+  rd_unique h h' hn hk c hc hceq
+
+/-- **The parser's tree is the only reading** of what it consumed. -/
+theorem the_tree_is_the_only_reading (f : Nat) (p : PState) (hi : GInv p) (hne : NE (expr f p).2)
+    (sk : List Token) (hs : Skips sk p (expr f p).2) (s' : Sh) (hr : Rd precAssign s' (typs sk) 0) :
+    s' = shape (expr f p).1 :=
+  expr_shape_unique f p hi hne sk hs s' hr
+
+/-- **Two renderings of one shape are parsed to trees of that shape**: whatever differs between
+them — redundant parentheses around any sub-expression (`parentheses_read_the_same`) — does not
+change the grouping. -/
+theorem same_rendering_same_shape (f f' : Nat) (p q : PState) (hp : GInv p) (hq : GInv q)
+    (hnp : NE (expr f p).2) (hnq : NE (expr f' q).2) (sk sk' : List Token)
+    (hs : Skips sk p (expr f p).2) (hs' : Skips sk' q (expr f' q).2)
+    (s : Sh) (h1 : Rd precAssign s (typs sk) 0) (h2 : Rd precAssign s (typs sk') 0) :
+    shape (expr f p).1 = shape (expr f' q).1 := by
+  rw [← expr_shape_unique f p hp hnp sk hs s h1, ← expr_shape_unique f' q hq hnq sk' hs' s h2]
+
+/-- parentheses around anything that reads as a shape read as that shape, at any level and
+whatever follows -/
+theorem parentheses_read_the_same {m : Nat} {s : Sh} {ts : List TokType} {k : Nat} (h : Rd m s ts k) (hm : 1 ≤ m)
+    (n k' : Nat) : Rd n s (.LPAREN :: (ts ++ [.RPAREN])) k' :=
+  rd_paren_any h hm n k'
+
+/-- what the table says, read off `Rd`: the right operand of a binary operator stands one level
+above the operator, the left operand at the operator's level -/
+theorem binary_levels (o : TokType) (h : (getRule o).inf = some .binary) : lp o = opPrec o ∧ rp o = opPrec o + 1 := by
+  have := (binary_not_logic o h).1
+  simp [lp, rp, this]
+
+/-- the documented order: assignment < or < and < not < equality < ordering < additive <
+multiplicative < unary sign -/
+theorem precedence_order :
+    precAssign < opPrec .OR ∧ opPrec .OR < opPrec .AND ∧ opPrec .AND < pp .NOT ∧ pp .NOT < opPrec .EE
+    ∧ opPrec .EE = opPrec .BE ∧ opPrec .EE < opPrec .LT ∧ opPrec .LT = opPrec .LE ∧ opPrec .LT = opPrec .GT
+    ∧ opPrec .LT = opPrec .GE ∧ opPrec .LT < opPrec .PLUS ∧ opPrec .PLUS = opPrec .MINUS
+    ∧ opPrec .PLUS < opPrec .STAR ∧ opPrec .STAR = opPrec .SLASH ∧ opPrec .STAR < pp .MINUS ∧ pp .MINUS = pp .PLUS := by
+  decide
+
+/-- non-vacuity: the state after the first `advance` of a parse satisfies what the theorem asks, and
+`true - nil - true * nil` (token kinds `a - b - c * d`) is read as `(a - b) - (c * d)` -/
+def exToks : List Token :=
+  [{ typ := .TRUE, pos := 1 }, { typ := .MINUS, pos := 3 }, { typ := .NIL, pos := 5 },
+   { typ := .MINUS, pos := 7 }, { typ := .TRUE, pos := 9 }, { typ := .STAR, pos := 11 },
+   { typ := .NIL, pos := 13 }, { typ := .EOF, pos := 13 }]
+example : shape (expr 40 (advance { rest := exToks }).2).1
+    = .bin .MINUS (.bin .MINUS .atom .atom) (.bin .STAR .atom .atom) := by rfl
+example : NE (expr 40 (advance { rest := exToks }).2).2 := ⟨by rfl, by rfl⟩
+example : GInv (advance { rest := exToks }).2 where
+  te := by rfl
+  pm := fun h => by
+    have : (advance { rest := exToks }).2.panicMode = false := by rfl
+    rw [this] at h; cases h
+  lf := by rfl
+  nofail := by
+    have : (advance { rest := exToks }).2.rest = exToks.tail := by rfl
+    rw [this]
+    decide
 
 /-! ## non-vacuity: the README's example `1==1 and 42` evaluates to 42 -/
 
